@@ -7,7 +7,11 @@ fn pk(m: &mut Mux, pusi: bool, payload: &[u8], rng: &mut Rng) { m.data_packet(0x
 
 fn mk_section(compact: bool, l: usize, rng: &mut Rng) -> Vec<u8> {
     let mut s = vec![rng.byte(), (if compact { 0x00 } else { 0x80 }) | (rng.byte() & 0x70) | ((l >> 8) as u8 & 0x0f), l as u8];
-    s.extend(rng.bytes(l));
+    let mut body = rng.bytes(l);
+    // now and then the section's own bytes look like stuffing (runs of 0xff that fill whole packets), sync bytes or zeros
+    match rng.below(8) { 0 => { for b in body.iter_mut() { *b = 0xff; } } 1 => { let at = rng.below(l as u64 + 1) as usize; for b in body.iter_mut().skip(at).take(400) { *b = 0xff; } }
+                         2 => { for b in body.iter_mut() { *b = *rng.pick(&[0u8, 0x47, 0xff]); } } _ => {} }
+    s.extend(body);
     s
 }
 
